@@ -100,6 +100,7 @@ type GInv struct {
 }
 
 type ContractSet struct {
+	countStores map[string]string // heap component -> name of the ghost counter of stores to it
 	ginvs  []*GInv
 	ufuns  map[string]*UFun
 	byKey  map[string]*Contract
@@ -110,7 +111,7 @@ type ContractSet struct {
 	nlines int
 }
 
-var clauseKW = map[string]bool{"func": true, "preserves": true, "ginv": true, "decreases": true, "assumes": true, "requires": true, "ensures": true, "modifies": true, "panics": true,
+var clauseKW = map[string]bool{"func": true, "countstores": true, "implements": true, "preserves": true, "ginv": true, "decreases": true, "assumes": true, "requires": true, "ensures": true, "modifies": true, "panics": true,
 	"loop": true, "spec": true, "axiom": true, "typed": true, "trusted": true, "pure": true, "effects": true,
 	"ufun": true, "smtaxiom": true, "rec": true, "signature": true, "records": true, "maporder": true, "sortkey_injective": true, "guarded_global": true, "guarded_by": true, "deterministic": true, "recursion": true, "immutable": true, "pkg": true, "dominates": true, "tags": true}
 
@@ -118,7 +119,7 @@ var tagRe = regexp.MustCompile(`^@(C[0-9]{2,3}|pinned)$`)
 var labelRe = regexp.MustCompile(`^([A-Za-z_][A-Za-z0-9_.\-]*):$`)
 
 func loadContracts(repo, specDir string) (*ContractSet, error) {
-	cs := &ContractSet{ufuns: map[string]*UFun{}, byKey: map[string]*Contract{}, typed: map[string]*Contract{}, specs: map[string]*SpecFn{}}
+	cs := &ContractSet{countStores: map[string]string{}, ufuns: map[string]*UFun{}, byKey: map[string]*Contract{}, typed: map[string]*Contract{}, specs: map[string]*SpecFn{}}
 	var files []string
 	filepath.Walk(repo, func(p string, info os.FileInfo, err error) error {
 		if err == nil && !info.IsDir() && info.Name() == "contracts_verif.go" {
@@ -303,6 +304,13 @@ func (cs *ContractSet) loadFile(path, repo string) error {
 			}
 			raw := strings.TrimSpace(strings.TrimPrefix(strings.TrimSpace(strings.TrimPrefix(rest, f[0])), f[1]))
 			cs.ufuns[f[0]].Axioms = append(cs.ufuns[f[0]].Axioms, [2]string{f[1], raw})
+		case "countstores":
+			// countstores <name> <component>: ghost counter of the stores to a heap component
+			f := strings.Fields(rest)
+			if len(f) != 2 {
+				return fail(fmt.Errorf("countstores <name> <component>"))
+			}
+			cs.countStores[f[1]] = f[0]
 		case "ginv":
 			cl, err := parseClause("ginv", rest, path, rc.line)
 			if err != nil {
